@@ -212,3 +212,6 @@ pub trait ObservableAny<Item, Err, O>: Sized {
   fn actual_subscribe(self, observer: O) -> (u: Self::Unsub)
     ensures Self::asubscribed(self, observer, u);
 }
+impl<T> Default for TypeHint<T> {
+  fn default() -> Self { TypeHint(core::marker::PhantomData) }
+}
